@@ -14,8 +14,8 @@ import (
 )
 
 func (api *API) encode(ctx context.Context, value reflect.Value, ts TypeSettings, opts *options) (b []byte, err error) {
-	if opts.encodeDepth++; opts.encodeDepth > maxDecodeDepth {
-		return nil, ierrors.Errorf("exceeded the maximum nesting depth of %d", maxDecodeDepth)
+	if opts.encodeDepth++; opts.encodeDepth > maxEncodeDepth {
+		return nil, ierrors.Errorf("exceeded the maximum nesting depth of %d", maxEncodeDepth)
 	}
 	defer func() { opts.encodeDepth-- }()
 
